@@ -16,6 +16,10 @@
 #include <algorithm>
 #include <sys/mman.h>
 #include <unistd.h>
+#include <dlfcn.h>
+#include <sys/syscall.h>
+#include <sys/auxv.h>
+#include <asm/prctl.h>
 
 #ifdef SIM_ASAN
 #include <sanitizer/common_interface_defs.h>
@@ -103,9 +107,76 @@ struct Member
     uint32_t vc[MAXT]; // vector clock
     void *wait_lock;
     void *fake_stack; // asan
+    void *tcb;        // thread control block / TLS of this member (nullptr: shares the encountering thread's)
     int ws_count;     // work-sharing constructs entered in this region
     int ws_cur;       // index of the work-share the member is in
 };
+
+// ---------------------------------------------------------------------------------------------
+// Per-member thread-local storage.  Team members are fibers of one OS thread, so without further ado every
+// `thread_local` / `#pragma omp threadprivate` object of the code under test would be shared by all members
+// (false races, scratch data clobbered across preemptions).  Members >= 1 therefore get their own TLS block
+// (allocated like pthread_create does, with ld.so's _dl_allocate_tls) and the FS base is switched together
+// with the stack; member 0 is the encountering thread, as in OpenMP, and keeps its TLS.  Blocks persist for
+// the life of the process, like the TLS of a runtime's pooled worker threads.  tsh flavours only: ASan and
+// valgrind keep per-thread state of their own behind FS.
+// ---------------------------------------------------------------------------------------------
+#if !defined(SIM_ASAN) && !defined(SIM_PLAIN)
+#define SIM_MEMBER_TLS 1
+static void *(*p_dl_allocate_tls)(void *) = nullptr;
+static void *g_main_tcb = nullptr;
+static void *g_cur_fs = nullptr;
+static bool g_member_tls = false;
+static bool g_wrfsbase = false;
+static long g_tid_offset = -1;
+
+static inline void set_fs(void *tcb)
+{
+    if (tcb == g_cur_fs)
+        return;
+    g_cur_fs = tcb;
+    if (g_wrfsbase)
+        asm volatile("wrfsbase %0" ::"r"(tcb) : "memory");
+    else
+        syscall(SYS_arch_prctl, ARCH_SET_FS, tcb);
+}
+static void tls_init()
+{
+    p_dl_allocate_tls = (void *(*)(void *))dlsym(RTLD_DEFAULT, "_dl_allocate_tls");
+    if (syscall(SYS_arch_prctl, ARCH_GET_FS, &g_main_tcb) != 0 || !p_dl_allocate_tls || !g_main_tcb)
+        return;
+    g_cur_fs = g_main_tcb;
+#ifndef HWCAP2_FSGSBASE
+#define HWCAP2_FSGSBASE (1 << 1)
+#endif
+    g_wrfsbase = (getauxval(AT_HWCAP2) & HWCAP2_FSGSBASE) != 0;
+    // the kernel thread id sits somewhere in struct pthread; abort()/raise() of a member needs it
+    int tid = (int)syscall(SYS_gettid);
+    for (long off = 0x40; off < 0x800; off += 4)
+        if (*(int *)((char *)g_main_tcb + off) == tid)
+        {
+            g_tid_offset = off;
+            break;
+        }
+    g_member_tls = true;
+}
+static void *tls_new_block()
+{
+    void *tcb = p_dl_allocate_tls(nullptr);
+    if (!tcb)
+        return nullptr;
+    uintptr_t *h = (uintptr_t *)tcb, *mh = (uintptr_t *)g_main_tcb;
+    h[0] = (uintptr_t)tcb; // tcbhead_t.tcb
+    h[2] = (uintptr_t)tcb; // tcbhead_t.self
+    h[3] = mh[3];          // multiple_threads / gscope_flag
+    h[4] = mh[4];          // sysinfo
+    h[5] = mh[5];          // stack_guard   (%fs:0x28)
+    h[6] = mh[6];          // pointer_guard (%fs:0x30)
+    if (g_tid_offset > 0)
+        *(int *)((char *)tcb + g_tid_offset) = *(int *)((char *)g_main_tcb + g_tid_offset);
+    return tcb;
+}
+#endif
 
 static char *g_stack_pool = nullptr;
 #ifdef SIM_ASAN
@@ -226,6 +297,15 @@ enum
     PZ_REDZONE = 1,
     PZ_FREED = 2
 };
+
+bool member_tls_enabled()
+{
+#ifdef SIM_MEMBER_TLS
+    return g_member_tls;
+#else
+    return false;
+#endif
+}
 
 size_t live_repo_blocks()
 {
@@ -931,6 +1011,10 @@ static void member_trampoline();
 
 static void prepare_fiber(Member *m)
 {
+#ifdef SIM_MEMBER_TLS
+    if (g_member_tls && m->idx >= 1 && !m->tcb)
+        m->tcb = tls_new_block();
+#endif
     // initial frame consumed by sim_ctx_switch: [mxcsr|fpucw][r15][r14][r13][r12][rbx][rbp][ret]
     uintptr_t top = ((uintptr_t)m->stack_lo + STACK_BYTES) & ~(uintptr_t)15;
     // the part of the stack a member normally uses starts from a defined state: zero in the clean
@@ -1015,6 +1099,13 @@ struct LockState
     uint32_t vc[MAXT] = {0};
 };
 static std::map<void *, LockState> g_locks;
+// one-time initialisation (pthread_once, guards of function-local statics): 0 = not started, 1 = in progress, 2 = done
+struct OnceState
+{
+    int state = 0;
+    int holder = -1;
+};
+static std::map<const void *, OnceState> g_once;
 
 // work-sharing loops that go through the runtime (schedule(dynamic|guided|runtime), or static via the API)
 struct WorkShare
@@ -1046,6 +1137,7 @@ static void run_region(void (*fn)(void *), void *data, int T, int requested)
     }
     g_used = 0;
     g_locks.clear();
+    g_once.clear();
     if (!g_ws_preinit)
         g_ws.clear();
     g_detect = g_cfg.detect_races && T > 1 && !g_asan_flavour;
@@ -1156,7 +1248,15 @@ static void run_region(void (*fn)(void *), void *data, int T, int requested)
             void *fake = nullptr;
             __sanitizer_start_switch_fiber(&fake, m->stack_lo, STACK_BYTES);
 #endif
+#ifdef SIM_MEMBER_TLS
+            if (m->tcb)
+                set_fs(m->tcb);
+#endif
             sim_ctx_switch(&g_sched_sp, m->sp);
+#ifdef SIM_MEMBER_TLS
+            if (g_member_tls)
+                set_fs(g_main_tcb);
+#endif
 #ifdef SIM_ASAN
             __sanitizer_finish_switch_fiber(fake, nullptr, nullptr);
 #endif
@@ -1200,6 +1300,9 @@ void init()
 #endif
     shadow_alloc(1u << 16);
     arena_init();
+#ifdef SIM_MEMBER_TLS
+    tls_init();
+#endif
 }
 
 void set_machine(const MachineConfig &m)
@@ -1930,3 +2033,126 @@ TSAN_ATOMIC(64, unsigned long)
 TSAN_ATOMIC(128, a128)
 extern "C" void __tsan_atomic_thread_fence(int) { atomic_sync(&g_default_critical); }
 extern "C" void __tsan_atomic_signal_fence(int) {}
+
+// ---------------------------------------------------------------------------------------------
+// Blocking primitives of libc / libstdc++ that repo code might start to use (std::mutex, std::call_once,
+// function-local statics with dynamic initialisation).  On one OS thread with cooperative members the real
+// ones would block the whole process as soon as a preempted member holds them; the repo objects' references
+// are renamed (objcopy) to these simulated versions, which wait by yielding and carry happens-before edges.
+// Outside multi-member regions they forward to the real primitives.
+// ---------------------------------------------------------------------------------------------
+#include <pthread.h>
+#include <cerrno>
+static inline bool sim_sync_active() { return g_in_region && g_nest == 0 && g_T > 1; }
+extern "C"
+{
+    int simw_pthread_mutex_lock(pthread_mutex_t *m)
+    {
+        if (!sim_sync_active())
+            return pthread_mutex_lock(m);
+        lock_acquire(m);
+        return 0;
+    }
+    int simw_pthread_mutex_unlock(pthread_mutex_t *m)
+    {
+        if (!sim_sync_active())
+            return pthread_mutex_unlock(m);
+        lock_release(m);
+        return 0;
+    }
+    int simw_pthread_mutex_trylock(pthread_mutex_t *m)
+    {
+        if (!sim_sync_active())
+            return pthread_mutex_trylock(m);
+        step();
+        LockState &L = g_locks[m];
+        if (L.holder >= 0)
+            return EBUSY;
+        L.holder = g_cur->idx;
+        for (int k = 0; k < g_T; k++)
+            g_cur->vc[k] = std::max(g_cur->vc[k], L.vc[k]);
+        return 0;
+    }
+}
+
+// returns true when the caller has to run the initialiser
+static bool once_enter(const void *key)
+{
+    step();
+    for (;;)
+    {
+        OnceState &o = g_once[key];
+        if (o.state == 2)
+        {
+            LockState &L = g_locks[(void *)key];
+            for (int k = 0; k < g_T; k++)
+                g_cur->vc[k] = std::max(g_cur->vc[k], L.vc[k]);
+            return false;
+        }
+        if (o.state == 0)
+        {
+            o.state = 1;
+            o.holder = g_cur->idx;
+            return true;
+        }
+        // another member is initialising: wait for it
+        int h = o.holder;
+        if (h < 0 || h >= g_T || !runnable(g_members[h]))
+            fatal("deadlock: one-time initialiser not runnable");
+        g_blocking_yield = true;
+        yield_to(h);
+    }
+}
+static void once_leave(const void *key, bool done)
+{
+    OnceState &o = g_once[key];
+    o.state = done ? 2 : 0;
+    o.holder = -1;
+    LockState &L = g_locks[(void *)key];
+    memcpy(L.vc, g_cur->vc, sizeof(uint32_t) * g_T);
+    g_cur->vc[g_cur->idx]++;
+    step();
+}
+extern "C"
+{
+    int simw_pthread_once(pthread_once_t *once, void (*fn)(void))
+    {
+        if (!sim_sync_active())
+            return pthread_once(once, fn);
+        // keep the real control word consistent for later serial callers: run through the real one when we win
+        if (once_enter(once))
+        {
+            int rc = pthread_once(once, fn);
+            once_leave(once, true);
+            return rc;
+        }
+        return 0;
+    }
+    // Itanium C++ ABI guards of function-local statics: first byte of the guard != 0 means initialised
+    int simw___cxa_guard_acquire(uint64_t *g)
+    {
+        if (*(volatile char *)g)
+            return 0;
+        if (!sim_sync_active())
+            return 1; // serial: nobody else can be initialising
+        if (!once_enter(g))
+            return 0;
+        if (*(volatile char *)g)
+        { // initialised meanwhile by a serial path
+            once_leave(g, true);
+            return 0;
+        }
+        return 1;
+    }
+    void simw___cxa_guard_release(uint64_t *g)
+    {
+        *(volatile char *)g = 1;
+        if (sim_sync_active())
+            once_leave(g, true);
+    }
+    void simw___cxa_guard_abort(uint64_t *g)
+    {
+        if (sim_sync_active())
+            once_leave(g, false);
+    }
+}
